@@ -36,7 +36,7 @@ def run(ctx):
     vlib.note_events(ctx, events)
     bad = vlib.validate_trace(ctx, "B1TTrace", events)
     for pk, binp in bins.items():
-        for e in vlib.reproduce(ctx, binp, [b for b in bad if b["op"].startswith(pk + ".")]):
+        for e in vlib.reproduce(ctx, binp, [b for b in bad if b["op"].startswith(pk + ".")], history=events):
             ctx.bad.append(dict(event=e, reason="real %s result is not the one the B1T specification defines" % e["op"]))
     return vlib.finish(ctx, LEVEL, RULE, ASSUME, technique="TLA+ spec B1T; TLC exhaustive at real size; TLC-generated tables replayed into the code; recorded calls validated by TLC")
 
